@@ -63,6 +63,19 @@ def noise(rng, n, kind):
         if b and b[0] == 0x55:
             b[0] = 0x56
         return bytes(b)
+    if kind == "all_aa":
+        return b"\xaa" * n                  # a stuck line: the first half of the marker over and over, never the second
+    if kind == "aa_at_read_ends":
+        # marker-free noise in which every 100-byte read (the noise starts 20 bytes into the stream) ends in 0xAA
+        b = bytearray(noise(rng, n, "marker_free"))
+        for i in range(len(b)):
+            if (20 + i + 1) % 100 == 0:
+                b[i] = 0xAA
+                if i + 1 < len(b) and b[i + 1] == 0x55:
+                    b[i + 1] = 0x54
+        if b and b[-1] == 0xAA:
+            b[-1] = 0xAB
+        return bytes(b)
     if kind == "half_marker_end":
         b = bytearray(noise(rng, max(n, 1), "marker_free"))
         b[-1] = 0xAA
@@ -354,7 +367,7 @@ def run_shard(spec, acc):
         return conformance_pty(spec, acc)
     if spec["what"] == "long_noise":
         for n in ([1000, 20000, 100000] if quick else [1000, 20000, 100000, 400000, 1000000]):
-            for kind in ("marker_free", "half_marker_end"):
+            for kind in ("marker_free", "half_marker_end", "all_aa", "aa_at_read_ends"):
                 segs = [("V", valid_packet(rng, 1)), ("N:" + kind, noise(rng, n, kind)), ("V", valid_packet(rng, 2)), ("V", valid_packet(rng, 3))]
                 stream, required, windows, damaged = ground_truth(segs)
                 cuts = list(range(100, len(stream), 100))         # what a 100-byte read loop sees
